@@ -1737,6 +1737,9 @@ def smin(n):
     return '((vp_s%d)(((vp_u%d)1) << %d))' % (n, n, n - 1)
 
 
+LIBC_NAMES = {'memcmp', 'memcpy', 'memmove', 'memset', 'strlen', 'strcmp', 'snprintf', 'sprintf', 'printf', 'fputs', 'fputc', 'puts', 'abort',
+              'malloc', 'free', 'calloc', 'realloc', 'exit'}
+
 PRELUDE = r'''
 #include <stdint.h>
 #include <stddef.h>
@@ -1942,6 +1945,9 @@ def translate(ll_text, stubs=(), div_helpers=False, loop_contracts=None, only=No
             info['param_t'] = [t for t, _, _ in f.params]
         except Unsupported as e:
             info['reason'] = 'signature: %s' % e
+            continue
+        if not f.defined and name in LIBC_NAMES:
+            info['reason'] = 'libc function (declared by <string.h>/<stdio.h>, not re-declared)'
             continue
         protos.append((name, hdr))
         if stub is not None:
